@@ -12,6 +12,9 @@ def run(ctx, res):
     bviol, bruns, bstats = K.run_big(ctx, ctx.n(4, 40))      # large / awkward worlds: oracles only
     viol, runs = viol + bviol, runs + bruns
     stats.update(bstats)
+    aviol, aruns, astats = K.run_alternating(ctx, ctx.n(60, 600))   # two worlds at a time: all setters, then all oracles
+    viol, runs = viol + aviol, runs + aruns
+    stats.update(astats)
     K.correspondences(ctx, res, [], cmp_, spv)
     res.oracle_runs += runs
     for v in viol:
